@@ -47,9 +47,9 @@ Full statement / proved / missing
                            pattern source (that is what the code does; only "the source compiles" is outside).
 * `C10_arms_ok`          — obligation over the table regenerated from serializer.go (second tie): the emit discipline the
                            model executes is the code's; `C10_impl_*` are the theorems instantiated on that table.
-* missing: type definitions that travel in the stream as Pcore::ObjectType instances and are registered by the
-  deserializer, objects with defaulted / typed attributes beyond "the init hash comes back" (C17), RuntimeValue —
-  the harness runs type definitions on the implementation only;
+* missing: that the deserializer REGISTERS type definitions that arrive in the stream (`newTypes`, `AddTypes`; the
+  definitions themselves are modelled, as instances of Pcore::ObjectType, and covered by `C10_roundtrip_partial`);
+  objects with defaulted / typed attributes beyond "the init hash comes back" (C17); RuntimeValue;
   the real leaf codecs (Regexp, SemVer, SemVerRange, Timespan, Timestamp, URI, type text): a leaf is an abstract payload
   `enc` and decoding a `__pvalue` string of a known type name returns it — exercised on the implementation by the direct
   predicate only; `String()` of floats/containers used as non-string keys with rich_data=false and no complex-key
@@ -205,8 +205,7 @@ example : ∃ d vals', collect (serialize ⟨true, true, 2⟩ ⟨false, false, 0
     (the second cannot be declared in pcore; the first is the model's catalogue);
 (c) a Timespan payload that is not the default-format text of a duration (not a value at all: `C10_span_canonical`).
 `isData` is the property's own reading for rich_data=false (a Regexp deliberately becomes a String there).  What lies
-outside the theorem for other reasons is outside the MODEL's value type: type definitions shipped in the stream,
-RuntimeValue, types without a string form, cyclic values. -/
+outside the theorem for other reasons is outside the MODEL's value type: RuntimeValue, types without a string form other than object types, cyclic values. -/
 
 /-- the full statement (no exclusion of reserved keys) — false, see `C10_reserved_key_collision` -/
 def C10_roundtrip_full : Prop :=
